@@ -22,6 +22,14 @@ CHECKS = {
         note="Trusted base: ed25519-dalek non-strict verify, kes-summed-ed25519 at evolutions 0..=63, blake2, blst pairings, own bech32 encoder. The aggregator crate is not linked in this check: its verifier call sequence is mirrored (stated in the evidence); observations about the aggregator route (unverified evolutions stored, duplicate key across pools not refused at acceptance, homomorphic PoP) are reported in the evidence as observations.",
         design="§4 C07",
     ),
+    "C08": dict(
+        level="exploration",
+        engine="mc-lottery",
+        technique="small-scope input enumeration of the real is_lottery_won (working-tree eligibility.rs by source inclusion) and of the public signer/verifier path, against an exact interval-arithmetic oracle with a proved bracket",
+        text="Every (phi_f, total, stake, draw) of an explicit lattice (0.43M cases quick, 4.2M thorough: 14-28 phi_f values incl. next to 0 and 1, every stake of totals <= 10-12 plus totals 1000, 45e15, 2^64-1, draws 0, 1, 2^512-1, a uniform grid and T -/+ j*2^s from one unit in the 512th bit out past the band edge around the exact threshold T of every stake) is decided by the working tree's is_lottery_won and compared with an independent fixed-point interval evaluation of 1-(1-phi_f)^(stake/total) whose bracket is below 2^-560; stake-ascending and draw-descending chains are judged on the implementation's own decisions, determinism by re-evaluation, and signer/verifier agreement index by index through the public API. The domain is a continuum, so the claim holds for the lattice, which is concentrated where a wrong bound changes outcomes.",
+        note="Trusted: mc-ref::lottery (unit-tested), num-bigint, blake2. Only the num-integer back end is compiled (rug not available offline). Band 2^-44*min(1, 2*max(w, x)), >= 256x the error implied by the f64 ln in the implementation. phi_f = 1 with stake = 0 is contradictory in the property and excluded.",
+        design="§4 C08",
+    ),
     "C14": dict(
         level="model_checking",
         engine="mc-aggregator",
